@@ -309,7 +309,50 @@ def r04_8(ctx):
     return rr
 
 
-RULES = [r04_1, r04_2, r04_3, r04_4, r04_5, r04_6, r04_7, r04_8]
+_DELEGATING_LAYER_EXAMPLE = "class K:\n    def _layer(self):\n        return self.lower_completely()._layer()\n"
+
+
+def _delegated_layers(fnode):
+    """Calls ``<something>._layer()`` inside a _layer body whose receiver is not ``super()``."""
+    out = []
+    for n in ast.walk(fnode):
+        if isinstance(n, ast.Call) and isinstance(n.func, ast.Attribute) and n.func.attr == "_layer":
+            recv = n.func.value
+            if isinstance(recv, ast.Call) and isinstance(recv.func, ast.Name) and recv.func.id == "super":
+                continue
+            out.append(n)
+    return out
+
+
+def r04_9(ctx):
+    rr = RuleResult(
+        "R04.9", "COVER",
+        "no expression class's _layer hands back the layer of ANOTHER node (e.g. self.lower_completely()._layer()): that layer defines the other node's keys and refers to the other node's dependencies, so a traversal of the raw tree (dask.optimize, dask.persist, any Expr.__dask_graph__ walk) gets a graph that neither defines this node's keys nor is closed",
+        min_instances=1,
+    )
+    probe = ast.parse(_DELEGATING_LAYER_EXAMPLE).body[0].body[0]
+    hits = _delegated_layers(probe)
+    rr.inst("positive-example", matched=len(hits))
+    if len(hits) != 1:
+        from ..model import AnalysisError
+
+        raise AnalysisError("R04.9 matcher no longer recognises its own positive example")
+    n = 0
+    for c in ctx.repo.expr_classes():
+        f = c.methods.get("_layer")
+        if f is None or not c.module.is_unit:
+            continue
+        n += 1
+        for call in _delegated_layers(f.node):
+            cst = f"{c.construct}::_layer::{unparse(call)[:60]}"
+            rr.inst(cst, delegated_to=unparse(call.func.value)[:60])
+            ctx.finding(rr, cst, f"{c.name}._layer returns {unparse(call)[:60]}: the layer of another node. Walked as part of the raw tree (dask.optimize(x), dask.persist(x), is_dask_collection) the graph then lacks this node's own keys and the other node's inputs - dask.optimize(x.sum(axis=0))[0].compute() summed key strings instead of blocks", func=f, node=call)
+    rr.notes.append(f"{n} _layer implementations scanned")
+    need(n >= 40, "_layer implementations of expression classes")
+    return rr
+
+
+RULES = [r04_1, r04_2, r04_3, r04_4, r04_5, r04_6, r04_7, r04_8, r04_9]
 
 from .upstream import upstream_facts  # noqa: E402
 
